@@ -321,14 +321,132 @@ package workflow
 // ---------------------------------------------------------------------------------------------------------
 // C15: loading a workflow. Children processed in goroutines write only their own slot / their own role; what they share
 // (the accumulated error) is written under a lock, so the result does not depend on the schedule.
+//@ func (r iteratorRange) GetVar() (v string)
+//@   noverify
+//@   pure
+
 //@ func (i *iteratorRole) expandTemplate() (err error)
 //@   property C15
 //@   goframes
+//   sequential expansion: the j-th child is generated from locals {var: ran[j]} and appended at position j; a failing
+//   generation ends the expansion with that error; the children installed are as many as the range has elements
+//@   ghostvar rr []string = nil
+//@   ghostvar nran int = 0
+//@   ghostvar vname string = ""
+//@   ghostvar last Role = nil
+//@   ghostvar genFailed bool = false
+//@   on aftercall .GetRange : rr = result0 ; nran = len(result0)
+//@   on aftercall .GetVar : vname = result
+//@   on call .generateRole : assert (vname in arg0) && arg0[vname] == rr[#i2 + 1] && (forall k string :: (k in arg0) ==> k == vname)
+//@   on aftercall .generateRole : last = result0 ; genFailed = genFailed || result1 != nil
+//@   on call builtin.append : assert arg1[0] == last && len(arg0) == #i2 + 1
+//@   on store workflow.aggregator.Roles : assert len(value) == nran && !genFailed
+//@   loop 2 invariant len(roles) == #i + 1 && #i >= -1 && #i < len(ran) && !genFailed && rr == ran && nran == len(ran) && fresh(roles)
+//@   ensures genFailed ==> err != nil
 
+// whether a role is enabled is read off its (already processed) Enabled field
+//@ ghost func enabledOf(r Role) bool
+//@ func (r Role) IsEnabled() (b bool)
+//@   noverify
+//@   pure
+//@   ensures b == enabledOf(r)
+
+// an iterator's children: expansion first (its error ends the load); sequentially, the first child whose templates fail
+// ends the load with that error; afterwards exactly the enabled children remain, in their original order
 //@ func (i *iteratorRole) ProcessTemplates(workflowRepo repos.IRepo, loadSubworkflow LoadSubworkflowFunc, baseConfigStack map[string]string) (err error)
 //@   property C15
 //@   goframes
+//@   ghostvar expErr bool = false
+//@   ghostvar failed bool = false
+//@   ghostvar cur Role = nil
+//@   ghostvar curEn bool = false
+//@   ghostvar nEn int = 0
+//@   ghostvar nApp int = 0
+//@   on aftercall (*iteratorRole).expandTemplate : expErr = result != nil
+//@   on aftercall .ProcessTemplates : failed = failed || result != nil
+//@   on aftercall .IsEnabled : cur = recv ; curEn = result ; nEn = nEn + (if result then 1 else 0)
+//@   on call builtin.append : assert arg1[0] == cur && curEn && len(arg0) == nApp ; nApp = nApp + 1
+//@   on store workflow.aggregator.Roles : assert nApp == nEn && len(value) == nEn
+//@   loop 2 invariant !failed && !expErr
+//@   loop 3 invariant nApp == nEn && len(enabledRoles) == nApp && nEn >= 0 && fresh(enabledRoles)
+//@   ensures expErr || failed ==> err != nil
 
+// an aggregator: its own templates first (an error other than "role disabled" ends the load); a disabled aggregator
+// drops its children before anything is processed for them; each child is attached to this role and then processed -
+// sequentially, the first failing child ends the load with that error; afterwards exactly the enabled children remain,
+// in order, and an aggregator left without children disables itself
 //@ func (r *aggregatorRole) ProcessTemplates(workflowRepo repos.IRepo, loadSubworkflow LoadSubworkflowFunc, baseConfigStack map[string]string) (err error)
 //@   property C15
 //@   goframes
+//@   ghostvar ownErr bool = false
+//@   ghostvar disabledErr bool = false
+//@   ghostvar selfSeen bool = false
+//@   ghostvar selfEn bool = false
+//@   ghostvar attached Role = nil
+//@   ghostvar failed bool = false
+//@   ghostvar cur Role = nil
+//@   ghostvar curEn bool = false
+//@   ghostvar nEn int = 0
+//@   ghostvar nApp int = 0
+//@   on aftercall (template.Sequence).Execute : ownErr = result != nil
+//@   on aftercall errors.As : disabledErr = result
+//@   on aftercall (*roleBase).IsEnabled when !selfSeen : selfEn = result ; selfSeen = true
+//@   on call Role.setParent : assert selfSeen && selfEn && arg0 == iface(r) ; attached = recv
+//@   on call Role.ProcessTemplates : assert selfSeen && selfEn && attached == recv
+//@   on aftercall Role.ProcessTemplates : failed = failed || result != nil
+//@   on aftercall Role.IsEnabled : cur = recv ; curEn = result ; nEn = nEn + (if result then 1 else 0)
+//@   on call builtin.append when argname0 == "enabledRoles" : assert arg1[0] == cur && curEn && len(arg0) == nApp ; nApp = nApp + 1
+//@   on store workflow.aggregator.Roles when selfSeen && selfEn : assert nApp == nEn && len(value) == nEn
+//@   on store workflow.aggregator.Roles when selfSeen && !selfEn && nApp == 0 && nEn == 0 : assert len(value) == 0
+//@   loop 3 invariant !failed && selfSeen
+//@   loop 4 invariant nApp == nEn && len(enabledRoles) == nApp && nEn >= 0 && fresh(enabledRoles)
+//@   ensures ownErr && !disabledErr ==> err != nil
+//@   ensures failed ==> err != nil
+//@   ensures err == nil && len(r.Roles) == 0 ==> r.Enabled == "false"
+
+// C15: an iterator yields exactly one child per element of its range, in order. A begin/end range is the decimal
+// numbers begin, begin+1, ..., end (empty when end < begin).
+//@ func (f *iteratorRangeFor) GetRange(varStack map[string]string) (ran []string, err error)
+//@   property C15
+//@   opt strings=uf
+//@   requires f != nil
+//@   loop 1 invariant j >= begin && len(ran) == j - begin && fresh(ran) && (end >= begin ==> j <= end + 1) && (end < begin ==> j == begin)
+//@   loop 1 invariant forall k int :: 0 <= k && k < len(ran) ==> ran[k] == strconv.decimal(begin + k)
+//@   ensures err == nil ==> strconv.aiOk(f.Begin) && strconv.aiOk(f.End)
+//@   ensures err == nil && strconv.ai(f.End) >= strconv.ai(f.Begin) ==> len(ran) == strconv.ai(f.End) - strconv.ai(f.Begin) + 1
+//@   ensures err == nil && strconv.ai(f.End) < strconv.ai(f.Begin) ==> len(ran) == 0
+//@   ensures err == nil ==> forall k int :: 0 <= k && k < len(ran) ==> ran[k] == strconv.decimal(strconv.ai(f.Begin) + k)
+
+// concurrent expansion: the goroutine for index j generates from locals {var: ran[j]} and writes slot j only (frame
+// obligations above); a failing generation is filed in the shared error
+//@ closure (*iteratorRole).expandTemplate #1
+//@   property C15
+//@   ghostvar vname string = ""
+//@   ghostvar last Role = nil
+//@   ghostvar failed bool = false
+//@   ghostvar filed bool = false
+//@   on aftercall .GetVar : vname = result
+//@   on call .generateRole : assert (vname in arg0) && arg0[vname] == ran[rangeIdx] && (forall k string :: (k in arg0) ==> k == vname)
+//@   on aftercall .generateRole : last = result0 ; failed = result1 != nil
+//@   on call multierror.Append : assert failed && !filed ; filed = true
+//@   ensures failed ==> filed
+//@   ensures !failed ==> roles[rangeIdx] == last
+
+// concurrent processing of children: a failing child is filed in the shared error (under the lock: frame obligations)
+//@ closure (*iteratorRole).ProcessTemplates #1
+//@   property C15
+//@   ghostvar failed bool = false
+//@   ghostvar filed bool = false
+//@   on aftercall Role.ProcessTemplates : failed = result != nil
+//@   on call multierror.Append : assert failed && !filed ; filed = true
+//@   ensures failed ==> filed
+//@ closure (*aggregatorRole).ProcessTemplates #1
+//@   property C15
+//@   ghostvar attached Role = nil
+//@   ghostvar failed bool = false
+//@   ghostvar filed bool = false
+//@   on call Role.setParent : assert arg0 == iface(r) ; attached = recv
+//@   on call Role.ProcessTemplates : assert attached == recv
+//@   on aftercall Role.ProcessTemplates : failed = result != nil
+//@   on call multierror.Append : assert failed && !filed ; filed = true
+//@   ensures failed ==> filed
